@@ -572,11 +572,24 @@ func (t *transpiler) evaluateBlock(block parser.Block) error {
 func (t *transpiler) evaluateReturn(returnStatement parser.Return) error {
 	returnValues := []ReturnValue{}
 
+	valueTypes := returnStatement.ValueTypes()
+
 	for _, expr := range returnStatement.Values() {
 		result, err := t.evaluateExpression(expr, true)
 
 		if err != nil {
 			return err
+		}
+
+		// A single call of a function with several results delivers all of them.
+		if len(valueTypes) > 1 && len(returnStatement.Values()) == 1 {
+			for i, value := range result.values {
+				returnValues = append(returnValues, ReturnValue{
+					value:     value,
+					valueType: valueTypes[i],
+				})
+			}
+			break
 		}
 		returnValues = append(returnValues, ReturnValue{
 			value:     result.firstValue(),
